@@ -168,6 +168,50 @@ def check_int(ctx, lib, alias=False):
             ctx.note_inconclusive("ecb_int path")
 
 
+def check_val(ctx, lib):
+    """VAL(s) in Color BASIC is 0 for text that spells no number; BASIC09's VAL raises an error for it.  ecb_val must
+    return 0 then (whatever its result parameter held before - it is passed by reference) and BASIC09's value otherwise.
+    Which texts fail is left open (uninterpreted predicate): decided for every such predicate."""
+    from vf.tv import machine
+
+    proc = lib["ecb_val"]
+    ctx.encode("ecb.b09 procedure ecb_val", "\n".join(proc.lines))
+    sem = machine.Sem("real")
+    m = machine.Machine(c20.load(proc), sem, init_mode="symbolic", interp_strings=True, for_semantics="pretest", refmap=LibCalls())
+    m.val_may_fail = True
+    st0 = machine.initial_state()
+    c = {}
+    for name, dims, tname, slen in proc.params:
+        c[name.lower()] = sem.const("init_" + name.upper(), {"string": "s"}.get(tname, "n"))
+    fails = z3.Function("VAL_FAILS", z3.StringSort(), z3.BoolSort())
+    val = sem.fn("B09_VAL", [z3.StringSort()], sem.sort)
+    want = z3.If(fails(c["str"]), sem.num(0.0), val(c["str"]))
+    leaves = m.run(st0, 60)
+    seen_fail_path = False
+    for leaf in leaves:
+        ctx.stats["obligations"] += 1
+        if leaf.status not in ("end", "stop"):
+            v, mdl = smt.check(list(leaf.cond), 20000, True)
+            ctx.stats[v] += 1
+            if v == "sat":
+                ctx.violation("ecb_val:ends-with-an-error", f"VAL({mdl.eval(c['str'], True)}): the procedure ends with {leaf.status}; Color BASIC returns 0 for text that is no number", {"str": str(mdl.eval(c["str"], True))})
+            continue
+        out = c20.final(leaf, m, "valout")
+        v, mdl = smt.check(list(leaf.cond) + [out != want], 20000, True)
+        ctx.stats[v] += 1
+        seen_fail_path = seen_fail_path or any("VAL_FAILS" in str(x) and not str(x).startswith("Not") for x in leaf.cond)
+        ctx.sample({"procedure": "ecb_val", "path": [str(x) for x in leaf.cond][-1:], "verdict": v})
+        if v == "sat":
+            failing = z3.is_true(mdl.eval(fails(c["str"]), True))
+            ctx.violation("ecb_val:" + ("text-that-is-no-number" if failing else "numeric-text"), f"VAL({mdl.eval(c['str'], True)}) with the result variable holding {mdl.eval(c['valout'], True)} before the call: the procedure leaves {mdl.eval(out, True)}, Color BASIC gives {mdl.eval(want, True)}", {"str": str(mdl.eval(c["str"], True)), "previous": str(mdl.eval(c["valout"], True))})
+        elif v == "unknown":
+            ctx.note_inconclusive("ecb_val path")
+    if not seen_fail_path:
+        from vf.core import HarnessError
+
+        raise HarnessError("ecb_val: the error path of VAL was never reached (vacuous contract check)")
+
+
 def check_hex_digit(ctx, lib):
     proc = lib["_ecb_hex_digit"]
     ctx.encode("ecb.b09 procedure _ecb_hex_digit", "\n".join(proc.lines))
